@@ -16,6 +16,8 @@ import (
 	"strconv"
 )
 
+var strs *bool
+
 var swap = map[token.Token]token.Token{
 	token.LSS: token.LEQ, token.LEQ: token.LSS, token.GTR: token.GEQ, token.GEQ: token.GTR,
 	token.EQL: token.NEQ, token.NEQ: token.EQL, token.ADD: token.SUB, token.SUB: token.ADD,
@@ -26,6 +28,7 @@ func main() {
 	file := flag.String("file", "", "go file")
 	list := flag.Bool("list", false, "count sites")
 	n := flag.Int("n", -1, "site to mutate")
+	strs = flag.Bool("strings", false, "only string-literal sites")
 	flag.Parse()
 	fset := token.NewFileSet()
 	f, err := parser.ParseFile(fset, *file, nil, parser.ParseComments)
@@ -36,6 +39,9 @@ func main() {
 	k := 0
 	desc := ""
 	hit := func(pos token.Pos, what string) bool {
+		if *strs && (len(what) < 14 || what[:14] != "string literal") {
+			return false
+		}
 		k++
 		if k-1 == *n {
 			desc = fmt.Sprintf("%s: %s", fset.Position(pos), what)
@@ -84,7 +90,12 @@ func main() {
 				}
 			}
 		case *ast.BasicLit:
-			if x.Kind == token.INT {
+			if x.Kind == token.STRING && *strs && len(x.Value) > 2 && x.Value[0] == '"' {
+				if hit(x.Pos(), "string literal "+x.Value+" altered") {
+					x.Value = x.Value[:len(x.Value)-1] + "_\""
+				}
+			}
+			if x.Kind == token.INT && !*strs {
 				if v, err := strconv.Atoi(x.Value); err == nil {
 					if hit(x.Pos(), fmt.Sprintf("%d -> %d", v, v+1)) {
 						x.Value = strconv.Itoa(v + 1)
